@@ -164,7 +164,10 @@ func (w *World) verifyUnit(u *Unit) *Exec {
 		if u.FC.Flags["noframe"] == "" && !u.FC.ModAll {
 			e.checkFrame(fr, env2, u.FC, out)
 		}
-		if u.FC.ModAll {
+		if u.FC.ModAll && u.FC.Flags["assumepreserves"] != "" {
+			e.sc.used["the preserves clause of "+u.Name+" is assumed, not checked (flag assumepreserves): it bounds what callees outside this unit's reach may touch"] = true
+		}
+		if u.FC.ModAll && u.FC.Flags["assumepreserves"] == "" {
 			a0 := e.hget(fr.entry, "G_alloc")
 			for _, pc := range u.FC.Preserves {
 				for _, m := range e.rawModMaps(pc) {
